@@ -13,7 +13,7 @@ PROP = "C16"
 SPEC = ["Bng.Spec.C16Teardown", "Bng.Spec.C16Pppoe", "Bng.Spec.C16SubMgr"]
 COMPS = [
     V.Component("pppoesrv", monitors=["residue", "conservation"]),
-    V.Component("teardown", monitors=["double-stop", "double-cleanup", "residue", "missing-stop", "stop-unstarted", "stop-before-end"]),
+    V.Component("teardown", monitors=["double-stop", "double-cleanup", "residue", "missing-stop", "stop-unstarted", "stop-before-end", "not-terminated"]),
     V.Component("submgr", monitors=["double-release", "double-end", "residue", "index-mismatch"]),
 ]
 _extra = os.path.join(os.path.dirname(os.path.abspath(__file__)), "c16_dhcp.py")
